@@ -541,7 +541,45 @@ func Corpus(tier string, embedded []*Schema) []*Schema {
 		om.field("new_field", 1, tString, "")
 		ot.field("inner", 1, tMessage, oin.path)
 		f.MessageType = append(f.MessageType, ot.msg)
+		// Go keywords and predeclared identifiers as field, oneof, enum-value and message names; leading/trailing/double
+		// underscores; digits; reserved numbers and names beside them
+		kw := newMsg(pkg, "Keywords")
+		for i, nme := range []string{"break", "case", "chan", "const", "continue", "default", "defer", "else", "fallthrough", "for", "func", "go", "goto", "if", "import",
+			"interface", "map", "package", "return", "select", "struct", "switch", "var", "string", "int", "len", "cap", "nil", "true", "false", "error", "any", "append", "make", "new", "copy",
+			"foo_", "bar__baz", "x1", "y_1", "a1b2_c3"} {
+			kw.field(nme, int32(i+1), kinds[i%len(kinds)], "")
+		}
+		kwo := kw.oneof("func_")
+		kw.member(kwo, "chan_msg", 100, tString, "")
+		kw.member(kwo, "select_one", 101, tInt32, "")
+		kw.msg.ReservedRange = append(kw.msg.ReservedRange, &descriptorpb.DescriptorProto_ReservedRange{Start: proto.Int32(200), End: proto.Int32(300)})
+		kw.msg.ReservedName = append(kw.msg.ReservedName, "old_name", "type")
+		// (enum values live in the scope that holds the enum: a top-level enum, so that they do not clash with the fields)
+		f.EnumType = append(f.EnumType, enum("Type", "type_unknown", 0, "func", 1, "nil", 2, "TYPE_X", 3, "range", 4, "string", 5))
+		kw.field("kind_of", 102, tEnum, "."+pkg+".Type")
+		f.MessageType = append(f.MessageType, kw.msg)
+		// a message with more fields than fit one machine word of presence bits
+		wide := newMsg(pkg, "Wide")
+		for i := 1; i <= 70; i++ {
+			wide.field(fmt.Sprintf("w%d", i), int32(i), kinds[i%len(kinds)], "")
+		}
+		f.MessageType = append(f.MessageType, wide.msg)
 		add(&Schema{Name: "names", Files: []*descriptorpb.FileDescriptorProto{f}})
+		// go_package with an explicit package name that differs from the directory
+		{
+			ga := file("vc/gopkgname/a.proto", "vc.gopkgname.a", CorpusModule+"/gopkgname/adir;apkg")
+			gam := newMsg("vc.gopkgname.a", "Thing")
+			gam.field("id", 1, tInt64, "")
+			ga.MessageType = append(ga.MessageType, gam.msg)
+			ga.EnumType = append(ga.EnumType, enum("Sort", "SORT_UNSPECIFIED", 0, "SORT_UP", 1))
+			gb := file("vc/gopkgname/b.proto", "vc.gopkgname.b", CorpusModule+"/gopkgname/bdir;bpkg", "vc/gopkgname/a.proto")
+			gbm := newMsg("vc.gopkgname.b", "Uses")
+			gbm.field("thing", 1, tMessage, gam.path)
+			gbm.mapField("things", 2, tString, tMessage, gam.path)
+			gbm.field("sort", 3, tEnum, ".vc.gopkgname.a.Sort")
+			gb.MessageType = append(gb.MessageType, gbm.msg)
+			add(&Schema{Name: "gopkgname", Files: []*descriptorpb.FileDescriptorProto{ga, gb}})
+		}
 	}
 
 	// ---- enums with negative and sparse numbers
@@ -711,7 +749,15 @@ func Corpus(tier string, embedded []*Schema) []*Schema {
 		m.member(o, "k", 4, tEnum, "."+pkg+".Kind")
 		m.member(o, "l", 5, tEnum, "."+pkg+".m.Local")
 		fm.MessageType = append(fm.MessageType, m.msg)
-		add(&Schema{Name: "enumonly", Files: []*descriptorpb.FileDescriptorProto{fe, fs, fm}})
+		// a file that declares nothing at all, in its own Go package and imported by m.proto; and one that declares only a
+		// service over imported messages
+		fz := file("vc/enumonly/empty.proto", pkg+".z", goPkg("enumonly", "z"))
+		fm.Dependency = append(fm.Dependency, "vc/enumonly/empty.proto")
+		fv := file("vc/enumonly/svconly.proto", pkg+".v", goPkg("enumonly", "v"), "vc/enumonly/m.proto")
+		fv.Service = append(fv.Service, &descriptorpb.ServiceDescriptorProto{Name: proto.String("OnlyService"), Method: []*descriptorpb.MethodDescriptorProto{
+			{Name: proto.String("Do"), InputType: proto.String(m.path), OutputType: proto.String(m.path)},
+		}})
+		add(&Schema{Name: "enumonly", Files: []*descriptorpb.FileDescriptorProto{fe, fs, fz, fm, fv}})
 	}
 
 	// ---- a file that declares custom options (extensions of the descriptor option messages), alternating extendees,
